@@ -412,6 +412,47 @@ pub fn run(ctx: &'static Ctx) -> (&'static str, Value, Vec<&'static str>) {
         .reduce(Stats::new, Stats::merge);
     stats = stats.merge(pref);
 
+    // --- history: identifier operations on different names back to back on one thread
+    let hnames: Vec<(String, usize)> = vec![
+        ("20241014-123330-014-I".into(), 7), ("20240813-123330-055-E".into(), 998), ("20240813-123330-055-E".into(), 999),
+        ("20241031-000031-031-I".into(), 1), ("20240101-010101-001-S".into(), 500), ("garbage".into(), 3), ("20241014-123330-054-I".into(), 7),
+    ];
+    let sh = history_check(
+        ctx,
+        "chunk_identifier_operations",
+        hnames.len(),
+        3,
+        |i| {
+            let id = ChunkIdentifier::new("KDMX".into(), VolumeIndex::new(hnames[i].1), hnames[i].0.clone(), None);
+            format!(
+                "{:?}",
+                guarded(|| (
+                    id.sequence(),
+                    id.chunk_type(),
+                    id.next_chunk().map(|n| match n {
+                        NextChunk::Sequence(c) => format!("{}/{}", c.volume().as_number(), c.name()),
+                        NextChunk::Volume(v) => format!("vol{}", v.as_number()),
+                    }),
+                    if id.name().len() >= 15 { Some(id.with_sequence(30).name().to_string()) } else { None },
+                ))
+            )
+        },
+        |i| format!("{}@{}", hnames[i].0, hnames[i].1),
+    );
+    let anames = ["KDMX20240813_123330_V06", "KTLX19991231_235959", "KDMé20220305_232324_V06", "short", "PHWA20240229_000000_V06_MDM"];
+    let sa = history_check(
+        ctx,
+        "archive_identifier_operations",
+        anames.len(),
+        3,
+        |i| {
+            let id = Identifier::new(anames[i].to_string());
+            format!("{:?}", guarded(|| (id.site().map(|s| s.to_string()), id.date_time().map(|d| d.timestamp()))))
+        },
+        |i| anames[i].to_string(),
+    );
+    stats = stats.merge(sh).merge(sa);
+
     // --- archive names
     let suffixes = ["", "_V06", "_V06_MDM", ".gz"];
     let (y0, y1) = if t { (1991, 2040) } else { (1991, 2040) };
